@@ -16,13 +16,15 @@ ENCODED = ["<Death as PartialOrd>::le/lt (derived)", "Machine::find_living_dynam
            "dispatch_loop DynamicElse / DynamicInternalElse / DynamicIndexedChoice arms (generation restored "
            "before the first stamp read; the generation saved for the retry is cc)",
            "indexing.rs append/prepend decisions (asserta puts the clause first, assertz last, in every "
-           "index bucket) - shared with C06"]
+           "index bucket) - shared with C06",
+           "stamping: Loader::incremental_compile_clause, compile_assert::{closure#1}, retract_clause::{closure#0}, "
+           "Loader::retract_dynamic_clause, the code generator's dynamic clause heads (all paths); every store to "
+           "cc / global_clock in the crate (MIR text)"]
 ASSUME = ["one step of each chain walk (the walk is induction on the chain)",
-          "where cc comes from (captured at First, restored from the or-frame at Next), stamping "
-          "at assert/retract and index maintenance are outside"]
+          "on which paths cc is captured / restored (only the stored values are checked); g < 2^64 - 1"]
 BOUNDS = "every (birth, death, cc, next) - symbolic 64-bit words / booleans"
 OUTSIDE = ("the histories quantifier (interleavings of updates with live choice points), "
-           "compile.rs stamping, retract's Prolog side, clause/2")
+           "consult-time stamping (compile_and_submit), retract's Prolog side, clause/2")
 
 
 def mpost(results):
